@@ -9,11 +9,27 @@ where for<'a> &'a Self: EucRingOps<Self> {}
 
 impl<T> DivRound for T
 where T: Integer, for<'x> &'x T: IntOps<T> {
+    // the integer nearest to self / q (ties away from zero), exact for operands of any size. 
     fn div_round(&self, q: &Self) -> Self {
-        let a = self.to_f64().unwrap();
-        let b = q.to_f64().unwrap();
-        let r = (a / b).round();
-        Self::from_f64(r).unwrap()
+        let d = self / q; // truncated quotient
+        let r = self % q; // |r| < |q|, sign of self
+        if r.is_zero() { 
+            return d
+        }
+
+        // compare 2|r| with |q| on the negative side, where nothing overflows.
+        let nr = if r.is_positive() { -&r } else { r };        // -|r|
+        let nq = if q.is_positive() { -q } else { q.clone() }; // -|q|
+
+        if nr <= &nq - &nr { // 2|r| >= |q| 
+            if self.is_negative() == q.is_negative() { 
+                d + Self::one()
+            } else { 
+                d - Self::one()
+            }
+        } else { 
+            d
+        }
     }
 }
 
